@@ -49,7 +49,6 @@
 //! This is done in batches (10,000 rows) to avoid holding locks too long.
 //! Related indexes are automatically dropped before the column is removed.
 
-use crate::database::dml::mvcc_helpers::wrap_record_for_insert;
 use crate::database::{Database, ExecuteResult};
 use crate::memory::Pool;
 use crate::mvcc::RecordHeader;
@@ -942,8 +941,11 @@ impl Database {
 
                             let new_user_record =
                                 OwnedValue::build_record_from_values(&owned_values, &new_schema)?;
-                            let wrapped_record =
-                                wrap_record_for_insert(0, &new_user_record, false);
+                            // keep the row's MVCC header: a deleted row stays deleted
+                            let mut wrapped_record =
+                                Vec::with_capacity(RecordHeader::SIZE + new_user_record.len());
+                            wrapped_record.extend_from_slice(&value[..RecordHeader::SIZE]);
+                            wrapped_record.extend_from_slice(&new_user_record);
                             batch.push((key.clone(), wrapped_record));
                         }
                     }
